@@ -280,15 +280,11 @@ func (e *env) parseResult(datetime, layout string) (coq string, t time.Time, ok 
 	return fmt.Sprintf("(Some (POk (mkG %s %s %s) %s))", vh.CoqZ(t.Unix()), vh.CoqZ(int64(t.Nanosecond())), l, vh.CoqBool(has)), t, true, loc
 }
 
-func coqUnit(u string) string {
-	switch u {
-	case "SECOND":
-		return "(Some USecond)"
-	case "MILLISECOND":
-		return "(Some UMillisecond)"
-	}
-	return "None"
-}
+// coqUnit: the unit argument goes to the model as the string it is; Gen/DateTime.v's
+// unit_of_string (extracted from the source) interprets it.
+func coqUnit(u string) string { return coqString(u) }
+
+func coqString(s string) string { return `"` + strings.ReplaceAll(s, `"`, `""`) + `"` }
 
 // fillTables records the zone behaviour at every point the model can ask about in this case.
 func (e *env) fillTables(zt *ztab, t time.Time, parsed bool, parseLoc *time.Location, locs ...*time.Location) {
